@@ -5,8 +5,8 @@
    See notes/C19.md.  [after cf h] = (state, trace) of the model after history h;
    [waiting tr n] = the calls for name n that have arrived and not met their fate,
    in order of arrival, read off the observable trace (Spec/ActivationSpec.v). *)
-From DV Require Import Lib.Base Wire.Names Spec.NamesSpec Activation.Activation Activation.Helper Spec.ActivationSpec
-  Proofs.ActivationBase Proofs.ActivationInv Proofs.ActivationMain Proofs.ActivationHelper.
+From DV Require Import Lib.Base Wire.Names Spec.NamesSpec Activation.Activation Activation.Helper Activation.Cache Spec.ActivationSpec
+  Spec.ActivationSpecCache Proofs.ActivationBase Proofs.ActivationInv Proofs.ActivationMain Proofs.ActivationHelper Proofs.ActivationCache Proofs.ActivationShell.
 From Coq Require Import Permutation.
 Local Open Scope N_scope.
 
@@ -145,21 +145,66 @@ Theorem C19_unique_name_not_delivered :
 Proof. exact held_for_unique_not_delivered. Qed.
 Print Assumptions C19_unique_name_not_delivered.
 
+(* ---- the table of activatable names (bus_activation_reload / update_directory / update_desktop_file_entry): for each name the
+        entry of the first valid service file in search order (directories in configured order, files in listing order; valid =
+        *.service, loads, has Name and Exec, and is called <Name>.service where the directory demands it) *)
+Theorem C19_table_is_first_valid : forall flags fs n, wf_fs fs ->
+  lookup_name n (by_name (reload flags fs)) = spec_lookup flags fs n.
+Proof. exact table_is_first_valid. Qed.
+Print Assumptions C19_table_is_first_valid.
+
+(* activation_find_entry on the freshly built cache, files unchanged: the specification's answer, cache left as it is *)
+Theorem C19_lookup_fresh : forall flags fs n, wf_fs fs ->
+  find_entry flags fs (reload flags fs) n = (reload flags fs, spec_lookup flags fs n).
+Proof. exact lookup_fresh. Qed.
+Print Assumptions C19_lookup_fresh.
+
+(* F19.4.  Once files change under a live cache the lookup no longer answers with the table of the files that are there: *)
+Definition C19_lookup_full_statement : Prop := forall flags fs fs' n, wf_fs fs -> wf_fs fs' ->
+  snd (find_entry flags fs' (reload flags fs) n) = spec_lookup flags fs' n.
+
+(* the winning file is removed: "unknown" although the second directory provides the name; the next lookup finds it *)
+Theorem C19_lookup_after_removal_refuted :
+  let c0 := reload [false; false] fs_before in
+  let '(c1, r1) := find_entry [false; false] fs_after c0 [97; 46; 98] in
+  let '(c2, r2) := find_entry [false; false] fs_after c1 [97; 46; 98] in
+  r1 = None /\ spec_lookup [false; false] fs_after [97; 46; 98] <> None /\ r2 = spec_lookup [false; false] fs_after [97; 46; 98].
+Proof. exact lookup_after_removal_refuted. Qed.
+Print Assumptions C19_lookup_after_removal_refuted.
+
+(* F19.1 seen from the table: update_desktop_file_entry takes any Name as it is, e.g. the unique name ":1.7" *)
+Theorem C19_table_accepts_unique_name :
+  exists e, lookup_name [58; 49; 46; 55] (by_name (reload [false] [Some [([117] ++ DOT_SERVICE, file_uniq)]])) = Some e.
+Proof. exact table_accepts_unique_name. Qed.
+Print Assumptions C19_table_accepts_unique_name.
+
 (* ---- the helper: execv only for a name the validator accepts, whose file <name>.service in the first configured directory
         where it loads declares exactly that name, an Exec line (parsed into argv as _dbus_shell_parse_argv does) and a User *)
 Theorem C19_helper : forall env name argv user, helper env name = HExec argv user ->
   validate_bus_name name = true /\ env.(h_perm_ok) = true /\
   exists pre d post content df ex,
     env.(h_dirs) = pre ++ d :: post /\
-    lookup_file (name ++ DOT_SERVICE) d = Some content /\ desktop_load content = LOk df /\
-    (forall d', In d' pre -> lookup_file (name ++ DOT_SERVICE) d' = None \/
-                             exists c', lookup_file (name ++ DOT_SERVICE) d' = Some c' /\ desktop_load c' = LErr) /\
+    Helper.lookup_file (name ++ DOT_SERVICE) d = Some content /\ desktop_load content = LOk df /\
+    (forall d', In d' pre -> Helper.lookup_file (name ++ DOT_SERVICE) d' = None \/
+                             exists c', Helper.lookup_file (name ++ DOT_SERVICE) d' = Some c' /\ desktop_load c' = LErr) /\
     get_string df SECTION KEY_NAME = Some name /\
     get_string df SECTION KEY_EXEC = Some ex /\
     get_string df SECTION KEY_USER = Some user /\
     env.(h_user_ok) user = true /\ shell_parse ex = ShOk argv.
 Proof. exact helper_sound. Qed.
 Print Assumptions C19_helper.
+
+(* Exec lines: _dbus_shell_parse_argv recovers every argument vector (any bytes but NUL) from its canonical shell quoting --
+   each argument in single quotes, an embedded quote written '\'', one blank between arguments *)
+Theorem C19_exec_line_quoting : forall argv, argv <> [] -> (forall a, In a argv -> ~ In 0 a) ->
+  shell_parse (join_blank (map squote argv)) = ShOk argv.
+Proof. exact shell_parse_quoted. Qed.
+Print Assumptions C19_exec_line_quoting.
+
+(* an unterminated quote is refused (the helper exits with INVALID_ARGS, the bus answers the caller with the error) *)
+Theorem C19_exec_unclosed_quote_refused : forall a, ~ In 0 a -> shell_parse (39 :: esc a) = ShErr.
+Proof. exact unclosed_quote_refused. Qed.
+Print Assumptions C19_exec_unclosed_quote_refused.
 
 (* the file is looked up inside the configured directory: an accepted name contains neither '/' nor NUL *)
 Theorem C19_helper_name_in_directory : forall name, validate_bus_name name = true -> ~ In 47 name /\ ~ In 0 name.
@@ -202,6 +247,16 @@ Example ex_history :
   = [[]; []; [OSpawn 0 (Wk 1) 1]; []; []; []; [ODrv 0 9 0]; []; [];
      [OStarted 1 1 1 1; OFwd 2 0 0 1; OErr 1 2 2 EAccessDenied; OFwd 2 3 0 2; ODrv 2 1 1]].
 Proof. vm_compute. reflexivity. Qed.
+
+(* two directories providing the same name: the first wins, strict naming rejects a misnamed file *)
+Example ex_table_first_wins :
+  option_map se_exec (spec_lookup [false; false] fs_before [97; 46; 98]) = Some [47; 120] /\
+  spec_lookup [false; true] fs_before [97; 46; 98] = spec_lookup [false; false] fs_before [97; 46; 98] /\
+  spec_lookup [true; true] fs_after [97; 46; 98] = None /\ wf_fs fs_before.
+Proof.
+  repeat split; try (vm_compute; reflexivity).
+  intros files [H|[H|[]]]; inversion H; subst; repeat constructor; simpl; tauto.
+Qed.
 
 Example ex_helper_ok : helper good_env [97; 46; 98] = HExec [[47; 120]; [99; 32; 100]] [114].
 Proof. exact helper_executes_good. Qed.
